@@ -470,7 +470,7 @@ NOTE: Does not check integrity or authenticity of passed link!
 */
 func InTotoMatchProducts(link *Link, paths []string, hashAlgorithms []string, excludePatterns []string, lstripPaths []string) ([]string, []string, []string, error) {
 	if len(paths) == 0 {
-		paths = append(paths, ".")
+		paths = []string{"."}
 	}
 
 	artifacts, err := RecordArtifacts(paths, hashAlgorithms, excludePatterns, lstripPaths, false, false)
